@@ -100,6 +100,8 @@ def families(prop: str, tier: str, seed: int) -> List[Dict[str, Any]]:
         s = list(g.gen_deps_enum()) + g.gen_deps(seed, 500 * k) + g.gen_deps(seed + 1, 200 * k, uncached_p=0.0)
     else:
         raise KeyError(prop)
+    if prop in ("C01", "C02", "C03", "C04", "C06", "C07", "C12"):
+        s += g.gen_api(seed, 150 * k)
     # witnesses of open known findings and regression scenarios of fixed ones are always executed
     for kf in common.known_findings():
         if kf["property"] == prop:
@@ -247,7 +249,7 @@ def run_check(prop: str, tier: str, write: bool = True) -> int:
     # ---- 4. conformance of real traces to the model (sample)
     ncf = 160 if tier == "quick" else 2500
     step = max(1, len(traces) // ncf)
-    sample_idx = list(range(0, len(traces), step))[:ncf]
+    sample_idx = [i for i in range(0, len(traces), step) if not scns[i].get("noconf")][:ncf]
     try:
         cf = rx.conform([traces[i] for i in sample_idx], switches=sw)
     except tlc.TLCError as exc:
